@@ -161,15 +161,14 @@ impl Prop for C16 {
                 format!("{:.9}", got),
             ));
         }
-        // (-180,180]; the closed end -180.0 is tolerated only where the bearing is due south to
-        // within the stated 1e-6 tolerance (there -180 and 180 are the same direction and which
-        // one atan2 returns depends on the sign of a 1e-16 rounding residue) - DESIGN 9.11
-        let due_south = 180.0 - want.abs() <= 1e-6;
-        if !(got > -180.0 && got <= 180.0) && !(got == -180.0 && due_south) {
+        // (-180,180], literally: -180.0 is the same direction as 180 but it is outside the stated interval (and carries the
+        // label CW where the statement's convention gives CCW); the original returned it on the Kaaba's antimeridian
+        // south of the antipode (D13)
+        if !(got > -180.0 && got <= 180.0) {
             return Err(Failure::new("qibla-range", "degrees in (-180,180]", format!("{}", got)));
         }
-        if got == -180.0 {
-            st.class("minus_180_at_due_south");
+        if got == 180.0 {
+            st.class("exactly_180_due_south");
         }
         if q2.degrees().to_bits() != got.to_bits() {
             return Err(Failure::new(
